@@ -8,6 +8,7 @@ require (
 	github.com/cosmos/iavl v1.3.5
 	github.com/cosmos/iavl/v2 v2.0.0
 	github.com/cosmos/ics23/go v0.11.0
+	github.com/google/btree v1.1.3
 )
 
 require (
@@ -21,7 +22,6 @@ require (
 	github.com/emicklei/dot v1.8.0 // indirect
 	github.com/gogo/protobuf v1.3.2 // indirect
 	github.com/golang/snappy v0.0.4 // indirect
-	github.com/google/btree v1.1.3 // indirect
 	github.com/google/go-cmp v0.7.0 // indirect
 	github.com/klauspost/compress v1.18.0 // indirect
 	github.com/kocubinski/costor-api v1.1.2 // indirect
